@@ -22,7 +22,7 @@ package ramp
 //@
 //@ func CalculateRampRate
 //@   props C14 C10
-//@   requires jitterArg == 0.0 || (jitterConsts(jitterArg) && GJin == GJout)
-//@   requires duration <= 4503599627370496
+//@   requires GJclaim == 1 ==> (jitterArg == 0.0 || (jitterConsts(jitterArg) && GJin == GJout))
+//@   modifies nothing
 //@   ensures [runnable] result.1 == nil ==> result.0 != nil && result.0.Rate != nil && result.0.IterationDuration > 0 && result.0.Duration == duration
 //@   ensures [rejected] result.1 != nil ==> result.0 == nil
